@@ -277,6 +277,16 @@ class Expr:
         return any((isinstance(d, ast.Name) and d.id == 'property') for d in fi.node.decorator_list)
 
     # ---- operators ------------------------------------------------------------------
+    bool_ctx = 0
+
+    def ev_bool(self, node, st):
+        """evaluate `node` where only its truth value matters (if / while / filter / comprehension-if / not)"""
+        self.bool_ctx += 1
+        try:
+            return self.ev(node, st)
+        finally:
+            self.bool_ctx -= 1
+
     def ev_BoolOp(self, node, st):
         is_and = isinstance(node.op, ast.And)
 
@@ -293,9 +303,9 @@ class Expr:
                 # try to stay on one path when the rest is pure & boolean
                 rest = rec(i + 1, s.fork())
                 if len(rest) == 1 and not isinstance(rest[0][0], Raised) \
-                        and isinstance(rest[0][0], (VBool,)) and self.pure_extension(s, rest[0][1]):
-                    # (truthiness-equivalent result when the left operand is not itself a bool)
-                    rb = rest[0][0].b
+                        and (isinstance(rest[0][0], (VBool,)) or self.bool_ctx > 0) and self.pure_extension(s, rest[0][1]):
+                    # (truthiness-equivalent result when an operand is not itself a bool: only in boolean contexts)
+                    rb = self.truth(rest[0][0], rest[0][1])
                     s2 = rest[0][1]
                     return [(VBool(z3.And(tv, rb) if is_and else z3.Or(tv, rb)), self.merge_guarded(s, s2, tv if is_and else z3.Not(tv)))]
                 out = []
@@ -327,7 +337,7 @@ class Expr:
             if isinstance(node.op, ast.Invert):
                 return self.call_method_dunder(v, '__invert__', [], s, node)
             raise OutOfSubset('unary op', node)
-        return self.bind(self.ev(node.operand, st), k)
+        return self.bind(self.ev_bool(node.operand, st) if isinstance(node.op, ast.Not) else self.ev(node.operand, st), k)
 
     def ev_BinOp(self, node, st):
         def k(vs, s):
@@ -503,7 +513,7 @@ class Expr:
                 except OutOfSubset:
                     pass
             return a + b
-        return self.bind(self.ev(node.test, st), k)
+        return self.bind(self.ev_bool(node.test, st), k)
 
     def ite_sv(self, c, a: SV, b: SV, st: State) -> SV:
         if isinstance(a, (VClass, VFunc, VBuiltin, VIter, VGen)) or isinstance(b, (VClass, VFunc, VBuiltin, VIter, VGen)):
